@@ -1,24 +1,58 @@
 /-
   C19 — field transformations produce their documented target distributions.
 
-  The definitions reasoned about are those of `GSV/Model/Transform.lean` (the same text the driver runs on
-  `Float` against the real `gstools.transform`), instantiated at `ℝ`.  The standard normal cdf `Φ` and its
-  quantile function `Q` are abstract: the theorems only use `IsStdNormalCdf Φ Q` (strictly increasing,
-  values in (0,1), `Φ ∘ Q = id` on (0,1), symmetry).
+  The definitions reasoned about are those of `GSV/Model/Transform.lean` (the same text the driver runs on `Float`
+  against the real `gstools.transform`), instantiated at `ℝ`.  The standard normal cdf `Φ` and its quantile function
+  `Q` are abstract: the theorems only use `IsStdNormalCdf Φ Q` (strictly increasing, values in (0,1), `Φ ∘ Q = id`
+  on (0,1), symmetry; satisfiable, see `logistic_isStdNormalCdf`).  "Values with a normal marginal of mean `m` and
+  variance `v`" is `NormalMarginal P X Φ m (√v)`: a random variable `X` on a probability space with
+  `P(X ≤ x) = Φ((x − m)/√v)`; distributional claims are statements about `P(T(X) ≤ y)` (`Measure.real`).
+  Helper lemmas live in `GSV/Lemmas/Transform.lean`.
 -/
 import GSV.RealInst
 import GSV.Model.Transform
 import GSV.Lemmas.Transform
-import Mathlib.Analysis.SpecialFunctions.Log.Basic
-import Mathlib.Tactic.NormNum.OfScientific
-import Mathlib.Tactic.Ring
-import Mathlib.Tactic.FieldSimp
-import Mathlib.Tactic.Linarith
-import Mathlib.Tactic.Positivity
 namespace GSV.Props.C19
-open GSV GSV.Transc GSV.Model.Transform GSV.Lemmas.Transform
+open GSV GSV.Transc GSV.Model.Transform GSV.Lemmas.Transform MeasureTheory
+
+variable {Ω : Type*} [MeasurableSpace Ω] {P : Measure Ω} {X : Ω → ℝ} {Φ Q : ℝ → ℝ}
 
 /-! ## discrete / binary -/
+
+/-- the documented partition of the real line by ascending thresholds `thr` into classes labelled `vals` -/
+def IsPartitionMap (f : ℝ → ℝ) (vals thr : List ℝ) : Prop :=
+  ∃ (hlen : vals.length = thr.length + 1) (hpos : 0 < thr.length), ∀ x,
+    f x ∈ vals ∧
+    (x ≤ thr[0]'hpos → f x = vals[0]'(by omega)) ∧
+    (∀ i (hi : i + 1 < thr.length), thr[i] < x → x ≤ thr[i + 1] → f x = vals[i + 1]'(by omega)) ∧
+    (thr[thr.length - 1]'(by omega) < x → f x = vals[thr.length]'(by omega))
+
+/-- whatever the threshold mode: if the prepared values / thresholds have matching lengths and the thresholds are
+    strictly ascending, `array_discrete` raises nothing and applies one partition map to every entry -/
+theorem discrete_of_setup (Q : ℝ → ℝ) (field vals : List ℝ) (mode : ThrMode ℝ) (sv thr : List ℝ)
+    (hsetup : discreteSetup Q field vals mode = .ok (sv, thr))
+    (hlen : sv.length = thr.length + 1) (hpos : 0 < thr.length) (hasc : thr.Pairwise (· < ·)) :
+    ∃ f : ℝ → ℝ, discrete Q field vals mode = .ok (field.map fun x => some (f x)) ∧ IsPartitionMap f sv thr := by
+  choose f hf using classify_spec sv thr hlen hpos hasc
+  refine ⟨f, ?_, hlen, hpos, fun x => (hf x).2⟩
+  have ha : ascending thr = true := (ascending_iff_pairwise thr).mpr hasc
+  have hthr : thr ≠ [] := by intro h; simp [h] at hpos
+  have hvals : sv ≠ [] := by intro h; simp [h] at hlen
+  have e1 : thr.head? = some (thr[0]'hpos) := by
+    rw [List.head?_eq_some_head hthr, List.head_eq_getElem]
+  have e2 : thr.getLast? = some (thr[thr.length - 1]'(by omega)) := by
+    rw [List.getLast?_eq_some_getLast hthr, List.getLast_eq_getElem]
+  have e3 : sv.head? = some (sv[0]'(by omega)) := by
+    rw [List.head?_eq_some_head hvals, List.head_eq_getElem]
+  have e4 : sv.getLast? = some (sv[thr.length]'(by omega)) := by
+    rw [List.getLast?_eq_some_getLast hvals, List.getLast_eq_getElem]
+    simp only [hlen, Nat.add_sub_cancel]
+  simp only [discrete, hsetup, ha, Bool.not_true, Bool.false_eq_true, ↓reduceIte, e1, e2, e3, e4, bind, Except.bind,
+    pure, Except.pure]
+  congr 1
+  apply List.map_congr_left
+  intro x _
+  exact (hf x).1
 
 /-- **Discrete partition** (explicit thresholds).  With `len(values) = len(thresholds) + 1` and strictly
     ascending thresholds, `array_discrete` raises nothing and maps every entry through one function `f` with
@@ -26,30 +60,20 @@ open GSV GSV.Transc GSV.Model.Transform GSV.Lemmas.Transform
 theorem discrete_partition (Q : ℝ → ℝ) (field vals thr : List ℝ)
     (hlen : vals.length = thr.length + 1) (hpos : 0 < thr.length) (hasc : thr.Pairwise (· < ·)) :
     ∃ f : ℝ → ℝ, discrete Q field vals (.explicit thr) = .ok (field.map fun x => some (f x)) ∧
-      ∀ x, f x ∈ vals ∧
-        (x ≤ thr[0]'hpos → f x = vals[0]'(by omega)) ∧
-        (∀ i (hi : i + 1 < thr.length), thr[i] < x → x ≤ thr[i + 1] → f x = vals[i + 1]'(by omega)) ∧
-        (thr[thr.length - 1]'(by omega) < x → f x = vals[thr.length]'(by omega)) := by
-  choose f hf using classify_spec vals thr hlen hpos hasc
-  refine ⟨f, ?_, fun x => (hf x).2⟩
-  have ha : ascending thr = true := (ascending_iff_pairwise thr).mpr hasc
-  have hthr : thr ≠ [] := by intro h; simp [h] at hpos
-  have hvals : vals ≠ [] := by intro h; simp [h] at hlen
-  have e1 : thr.head? = some (thr[0]'hpos) := by
-    rw [List.head?_eq_some_head hthr, List.head_eq_getElem]
-  have e2 : thr.getLast? = some (thr[thr.length - 1]'(by omega)) := by
-    rw [List.getLast?_eq_some_getLast hthr, List.getLast_eq_getElem]
-  have e3 : vals.head? = some (vals[0]'(by omega)) := by
-    rw [List.head?_eq_some_head hvals, List.head_eq_getElem]
-  have e4 : vals.getLast? = some (vals[thr.length]'(by omega)) := by
-    rw [List.getLast?_eq_some_getLast hvals, List.getLast_eq_getElem]
-    simp only [hlen, Nat.add_sub_cancel]
-  simp only [discrete, discreteSetup, hlen, ne_eq, not_true_eq_false, ↓reduceIte, ha,
-    Bool.not_true, Bool.false_eq_true, e1, e2, e3, e4, bind, Except.bind, pure, Except.pure]
-  congr 1
-  apply List.map_congr_left
-  intro x _
-  exact (hf x).1
+      IsPartitionMap f vals thr :=
+  discrete_of_setup Q field vals _ vals thr (by simp [discreteSetup, hlen, pure, Except.pure]) hlen hpos hasc
+
+/-- malformed explicit thresholds raise: wrong length or not strictly ascending → `ValueError` -/
+theorem discrete_explicit_errors (Q : ℝ → ℝ) (field vals thr : List ℝ) :
+    (vals.length ≠ thr.length + 1 → discrete Q field vals (.explicit thr) = .error "ValueError") ∧
+    (vals.length = thr.length + 1 → ¬ thr.Pairwise (· < ·) → discrete Q field vals (.explicit thr) = .error "ValueError") := by
+  constructor
+  · intro h
+    simp [discrete, discreteSetup, h, bind, Except.bind, throw, throwThe, MonadExceptOf.throw]
+  · intro h hna
+    have ha : ascending thr = false := by
+      rw [← Bool.not_eq_true, ascending_iff_pairwise]; exact hna
+    simp [discrete, discreteSetup, h, ha, bind, Except.bind, pure, Except.pure, throw, throwThe, MonadExceptOf.throw]
 
 example : (([1, 2, 3] : List ℝ)).length = ([0.5, 1.5] : List ℝ).length + 1 ∧
     ([0.5, 1.5] : List ℝ).Pairwise (· < ·) := by
@@ -80,6 +104,15 @@ theorem binary_default_moments (mean sill : ℝ) (hs : 0 ≤ sill) :
   refine ⟨by ring, ?_⟩
   have := Real.sq_sqrt hs
   ring_nf; rw [this]
+
+/-- default `divide = mean`: both values of the binary transform have probability ½ under a normal marginal `N(mean, s²)` -/
+theorem binary_default_split (h : IsStdNormalCdf Φ Q) [IsProbabilityMeasure P] {mean s : ℝ}
+    (hX : NormalMarginal P X Φ mean s) (hm : Measurable X) :
+    P.real {ω | X ω ≤ mean} = 1 / 2 ∧ P.real {ω | mean < X ω} = 1 / 2 := by
+  have h1 : P.real {ω | X ω ≤ mean} = 1 / 2 := by rw [hX, sub_self, zero_div, h.at_zero]
+  refine ⟨h1, ?_⟩
+  have hset : {ω | mean < X ω} = {ω | X ω ≤ mean}ᶜ := by ext ω; simp
+  rw [hset, measureReal_compl (measurableSet_le_const hm _), probReal_univ, h1]; norm_num
 
 /-! ## force moments -/
 
@@ -119,5 +152,566 @@ theorem uquad_default_bounds (mean var : ℝ) (hv : 0 ≤ var) :
   have := Real.sq_sqrt h2
   refine ⟨by ring, ?_, by linarith [Real.sqrt_nonneg (5 / 3 * var)]⟩
   ring_nf; ring_nf at this; rw [this]; ring
+
+/-! ## Box-Cox -/
+
+theorem lmbda_ne_zero {l : ℝ} (h : lmbdaIsZero l = false) : l ≠ 0 := by
+  intro h0
+  simp only [lmbdaIsZero, fabs_real, lit1em8, decide_eq_false_iff_not, not_le, h0, abs_zero] at h
+  norm_num at h
+
+theorem maxZero_of_nonneg {x : ℝ} (h : 0 ≤ x) : maxZero x = x := by
+  simp only [maxZero, Nat.cast_zero]
+  rw [if_neg (not_lt.mpr h)]
+
+/-- **Box-Cox inverts the Box-Cox normalizer**: `array_boxcox(BoxCox(λ).normalize(y), λ) = y` for every `y > 0`
+    and every `λ` (both branches of `isclose(λ, 0)`). -/
+theorem boxcox_inverts_normalizer (l y : ℝ) (hy : 0 < y) : boxcox l 0 (bcNormalize l y) = y := by
+  unfold boxcox bcNormalize
+  cases hl : lmbdaIsZero l
+  · have hl0 := lmbda_ne_zero hl
+    simp only [Bool.false_eq_true, ↓reduceIte, rpow_real, Nat.cast_one, add_zero]
+    have e : l * ((y ^ l - 1) / l) + 1 = y ^ l := by field_simp; ring
+    rw [e, maxZero_of_nonneg (le_of_lt (Real.rpow_pos_of_pos hy l)), ← Real.rpow_mul (le_of_lt hy)]
+    rw [mul_one_div_cancel hl0, Real.rpow_one]
+  · simp only [↓reduceIte, toLognormal, exp_real, log_real, add_zero]
+    exact Real.exp_log hy
+
+/-- … and the normalizer inverts `array_boxcox` wherever nothing is cut off (`λ(x + shift) + 1 > 0`):
+    `BoxCox(λ).normalize(array_boxcox(x, λ, shift)) = x + shift`. -/
+theorem normalizer_inverts_boxcox (l s x : ℝ) (hcut : 0 < l * (x + s) + 1) :
+    bcNormalize l (boxcox l s x) = x + s := by
+  unfold boxcox bcNormalize
+  cases hl : lmbdaIsZero l
+  · have hl0 := lmbda_ne_zero hl
+    simp only [Bool.false_eq_true, ↓reduceIte, rpow_real, Nat.cast_one]
+    rw [maxZero_of_nonneg (le_of_lt hcut), ← Real.rpow_mul (le_of_lt hcut), one_div_mul_cancel hl0, Real.rpow_one]
+    field_simp; ring
+  · simp only [↓reduceIte, toLognormal, exp_real, log_real]
+    exact Real.log_exp _
+
+/-- `array_boxcox(x, λ, shift)` is `BoxCox(λ).denormalize(x + shift)` wherever nothing is cut off -/
+theorem boxcox_eq_denormalize (l s x : ℝ) (hcut : 0 ≤ l * (x + s) + 1) :
+    boxcox l s x = bcDenormalize l (x + s) := by
+  unfold boxcox bcDenormalize
+  cases hl : lmbdaIsZero l
+  · simp only [Bool.false_eq_true, ↓reduceIte, rpow_real, Nat.cast_one]
+    rw [maxZero_of_nonneg hcut]; congr 1; ring
+  · simp [toLognormal]
+
+/-- the "cut off" warning is emitted exactly when some entry is clipped by `np.maximum(λ·r + 1, 0)` -/
+theorem boxcox_warns_iff (l s : ℝ) (f : List ℝ) :
+    boxcoxWarns l s f = true ↔ lmbdaIsZero l = false ∧ ∃ x ∈ f, maxZero (l * (x + s) + 1) ≠ l * (x + s) + 1 := by
+  simp only [boxcoxWarns, Bool.and_eq_true, Bool.not_eq_eq_eq_not, Bool.not_true, List.any_eq_true,
+    decide_eq_true_eq, Nat.cast_one, Nat.cast_zero]
+  refine and_congr Iff.rfl (exists_congr fun x => and_congr Iff.rfl ?_)
+  simp only [maxZero, Nat.cast_zero]
+  constructor
+  · intro hh; rw [if_pos hh]; exact ne_of_gt hh
+  · intro hh; by_contra hc; exact hh (if_neg hc)
+
+/-! ## 'arithmetic' thresholds -/
+
+theorem sortVals_perm (vals : List ℝ) : (sortVals vals).Perm vals := List.mergeSort_perm _ _
+
+theorem sortVals_sorted (vals : List ℝ) : (sortVals vals).Pairwise (· ≤ ·) := by
+  have := List.pairwise_mergeSort (le := fun a b : ℝ => decide (a ≤ b))
+    (fun a b c hab hbc => by simp only [decide_eq_true_eq] at *; exact le_trans hab hbc)
+    (fun a b => by simp only [Bool.or_eq_true, decide_eq_true_eq]; exact le_total a b) vals
+  exact this.imp (fun hab => by simpa using hab)
+
+theorem midpoints_length (l : List ℝ) : (midpoints l).length = l.length - 1 := by
+  induction l with
+  | nil => rfl
+  | cons a t ih =>
+    match t with
+    | [] => rfl
+    | b :: t' => simp only [midpoints, List.length_cons, ih]; omega
+
+theorem midpoints_getElem (l : List ℝ) (i : ℕ) (hi : i < (midpoints l).length) :
+    (midpoints l)[i] = (l[i + 1]'(by rw [midpoints_length] at hi; omega) + l[i]'(by rw [midpoints_length] at hi; omega)) / 2 := by
+  induction l generalizing i with
+  | nil => simp [midpoints] at hi
+  | cons a t ih =>
+    match t with
+    | [] => simp [midpoints] at hi
+    | b :: t' =>
+      cases i with
+      | zero => simp [midpoints]
+      | succ j =>
+        simp only [midpoints, List.getElem_cons_succ]
+        rw [ih j (by simpa [midpoints] using hi)]
+        rfl
+
+theorem midpoints_gt_head {b : ℝ} {t : List ℝ} (hs : (b :: t).Pairwise (· < ·)) : ∀ y ∈ midpoints (b :: t), b < y := by
+  induction t generalizing b with
+  | nil => intro y hy; simp [midpoints] at hy
+  | cons c t' ih =>
+    intro y hy
+    have hbc : b < c := (List.pairwise_cons.mp hs).1 c (by simp)
+    simp only [midpoints, List.mem_cons, Nat.cast_ofNat] at hy
+    rcases hy with rfl | hy
+    · linarith
+    · exact lt_trans hbc (ih (List.pairwise_cons.mp hs).2 y hy)
+
+theorem midpoints_ascending {l : List ℝ} (hs : l.Pairwise (· < ·)) : (midpoints l).Pairwise (· < ·) := by
+  induction l with
+  | nil => simp [midpoints]
+  | cons a t ih =>
+    match t with
+    | [] => simp [midpoints]
+    | b :: t' =>
+      simp only [midpoints, Nat.cast_ofNat]
+      have hab : a < b := (List.pairwise_cons.mp hs).1 b (by simp)
+      refine List.pairwise_cons.mpr ⟨?_, ih (List.pairwise_cons.mp hs).2⟩
+      intro y hy
+      have := midpoints_gt_head (List.pairwise_cons.mp hs).2 y hy
+      linarith
+
+/-- **Arithmetic thresholds**: `array_discrete(…, thresholds="arithmetic")` works on the sorted values
+    (a sorted permutation of `values`) and uses the midpoints of neighbouring sorted values as thresholds;
+    if the values are pairwise distinct the thresholds are strictly ascending, so no error is raised. -/
+theorem arithmetic_thresholds (field vals : List ℝ) :
+    ∃ sv thr, discreteSetup Q field vals .arithmetic = .ok (sv, thr) ∧
+      sv.Perm vals ∧ sv.Pairwise (· ≤ ·) ∧ thr.length = sv.length - 1 ∧
+      (∀ i (hi : i + 1 < sv.length), thr[i]? = some ((sv[i + 1] + sv[i]'(by omega)) / 2)) ∧
+      (vals.Nodup → thr.Pairwise (· < ·)) := by
+  refine ⟨sortVals vals, midpoints (sortVals vals), rfl, sortVals_perm vals, sortVals_sorted vals,
+    midpoints_length _, fun i hi => ?_, ?_⟩
+  · have hi' : i < (midpoints (sortVals vals)).length := by rw [midpoints_length]; omega
+    rw [List.getElem?_eq_getElem hi', midpoints_getElem _ i hi']
+  · intro hnd
+    apply midpoints_ascending
+    have hnd' : (sortVals vals).Nodup := (sortVals_perm vals).nodup_iff.mpr hnd
+    exact ((sortVals_sorted vals).and hnd').imp (fun ⟨h1, h2⟩ => lt_of_le_of_ne h1 h2)
+
+
+/-- with pairwise distinct values (at least two) the 'arithmetic' mode raises nothing and applies the partition map of
+    the midpoints to the sorted values -/
+theorem discrete_arithmetic (Q : ℝ → ℝ) (field vals : List ℝ) (hn : 2 ≤ vals.length) (hnd : vals.Nodup) :
+    ∃ (f : ℝ → ℝ) (sv thr : List ℝ), discrete Q field vals .arithmetic = .ok (field.map fun x => some (f x)) ∧
+      IsPartitionMap f sv thr ∧ sv.Perm vals ∧ sv.Pairwise (· ≤ ·) ∧
+      (∀ i (hi : i + 1 < sv.length), thr[i]? = some ((sv[i + 1] + sv[i]'(by omega)) / 2)) := by
+  obtain ⟨sv, thr, hsetup, hperm, hsorted, hlen, hmid, hasc⟩ := arithmetic_thresholds (Q := Q) field vals
+  have hl : sv.length = vals.length := hperm.length_eq
+  obtain ⟨f, hf, hpart⟩ := discrete_of_setup Q field vals _ sv thr hsetup (by omega) (by omega) (hasc hnd)
+  exact ⟨f, sv, thr, hf, hpart, hperm, hsorted, hmid⟩
+
+example : 2 ≤ ([3, 1, 2] : List ℝ).length ∧ ([3, 1, 2] : List ℝ).Nodup := by
+  refine ⟨by simp, ?_⟩; simp
+
+/-! ## documented target cdfs -/
+
+/-- cdf of the uniform law on `[low, high]` -/
+noncomputable def uniformCdf (low high y : ℝ) : ℝ :=
+  if y ≤ low then 0 else if high ≤ y then 1 else (y - low) / (high - low)
+
+/-- cdf of the arcsine law on `[a, b]` -/
+noncomputable def arcsinCdf (a b y : ℝ) : ℝ :=
+  if y ≤ a then 0 else if b ≤ y then 1 else 2 / Real.pi * Real.arcsin (Real.sqrt ((y - a) / (b - a)))
+
+/-- cdf of the U-quadratic law on `[a, b]`: `α/3·((y−β)³ + (β−a)³)` with `α = 12/(b−a)³`, `β = (a+b)/2` -/
+noncomputable def uquadCdf (a b y : ℝ) : ℝ :=
+  if y ≤ a then 0 else if b ≤ y then 1 else 4 * (y - (a + b) / 2) ^ 3 / (b - a) ^ 3 + 1 / 2
+
+/-- cdf of the log-normal law with log-mean `m` and log-standard-deviation `s` -/
+noncomputable def lognormalCdf (Φ : ℝ → ℝ) (m s y : ℝ) : ℝ :=
+  if y ≤ 0 then 0 else Φ ((Real.log y - m) / s)
+
+theorem toUniform_eq (m v low high x : ℝ) :
+    toUniform Φ m v low high x = Φ ((x - m) / Real.sqrt v) * (high - low) + low := by
+  simp [toUniform, standardize]
+
+/-- **Uniform**: a normal marginal `N(m, v)` pushed through `array_to_uniform(mean=m, var=v, low, high)` has the
+    uniform cdf on `[low, high]`. -/
+theorem uniform_cdf (h : IsStdNormalCdf Φ Q) [IsProbabilityMeasure P] {m v low high : ℝ}
+    (hX : NormalMarginal P X Φ m (Real.sqrt v)) (hv : 0 < v) (hlh : low < high) (y : ℝ) :
+    P.real {ω | toUniform Φ m v low high (X ω) ≤ y} = uniformCdf low high y := by
+  have hs : 0 < Real.sqrt v := Real.sqrt_pos.mpr hv
+  have hd : 0 < high - low := sub_pos.mpr hlh
+  simp only [toUniform_eq]
+  refine pushforward_cdf h hX hs (fun u => u * (high - low) + low) _ y ?_
+  unfold uniformCdf
+  split_ifs with h1 h2
+  · left; exact ⟨fun u hu0 _ => by nlinarith, rfl⟩
+  · right; left; exact ⟨fun u _ hu1 => by nlinarith, rfl⟩
+  · right; right
+    have h1' : low < y := lt_of_not_ge h1
+    have h2' : y < high := lt_of_not_ge h2
+    refine ⟨div_pos (by linarith) hd, (div_lt_one hd).mpr (by linarith), fun u _ _ => ?_⟩
+    rw [le_div_iff₀ hd]
+    constructor <;> intro hh <;> linarith
+
+theorem toArcsin_eq (m v : ℝ) (a b : Option ℝ) (x : ℝ) :
+    toArcsin Φ m v a b x = uniformToArcsin (a.getD (arcsinDefaultA m v)) (b.getD (arcsinDefaultB m v))
+      (Φ ((x - m) / Real.sqrt v)) := by
+  simp [toArcsin, toUniform, standardize, lit00, lit10]
+
+theorem toUquad_eq (m v : ℝ) (a b : Option ℝ) (x : ℝ) :
+    toUquad Φ m v a b x = uniformToUquad (a.getD (uquadDefaultA m v)) (b.getD (uquadDefaultB m v))
+      (Φ ((x - m) / Real.sqrt v)) := by
+  simp [toUquad, toUniform, standardize, lit00, lit10]
+
+/-- **Arcsine**: `array_to_arcsin(mean=m, var=v, a, b)` (bounds given or defaulted) turns a normal marginal `N(m, v)`
+    into the arcsine law on `[a', b']` (the effective bounds), provided `a' < b'`. -/
+theorem arcsin_cdf (h : IsStdNormalCdf Φ Q) [IsProbabilityMeasure P] {m v : ℝ} (a b : Option ℝ)
+    (hX : NormalMarginal P X Φ m (Real.sqrt v)) (hv : 0 < v)
+    (hab : a.getD (arcsinDefaultA m v) < b.getD (arcsinDefaultB m v)) (y : ℝ) :
+    P.real {ω | toArcsin Φ m v a b (X ω) ≤ y} =
+      arcsinCdf (a.getD (arcsinDefaultA m v)) (b.getD (arcsinDefaultB m v)) y := by
+  have hs : 0 < Real.sqrt v := Real.sqrt_pos.mpr hv
+  simp only [toArcsin_eq]
+  set a' := a.getD (arcsinDefaultA m v)
+  set b' := b.getD (arcsinDefaultB m v)
+  refine pushforward_cdf h hX hs (uniformToArcsin a' b') _ y ?_
+  unfold arcsinCdf
+  split_ifs with h1 h2
+  · left; exact ⟨fun u hu0 hu1 => lt_of_le_of_lt h1 (uniformToArcsin_mem_Ioo hab hu0 hu1).1, rfl⟩
+  · right; left; exact ⟨fun u hu0 hu1 => le_trans (uniformToArcsin_mem_Ioo hab hu0 hu1).2 h2, rfl⟩
+  · right; right
+    have h1' : a' < y := lt_of_not_ge h1
+    have h2' : y < b' := lt_of_not_ge h2
+    exact ⟨(arcsinCdf_mem_Ioo hab h1' h2').1, (arcsinCdf_mem_Ioo hab h1' h2').2,
+      fun u hu0 hu1 => uniformToArcsin_le_iff hab hu0 hu1 h1' h2'⟩
+
+/-- **U-quadratic**: `array_to_uquad(mean=m, var=v, a, b)` turns a normal marginal `N(m, v)` into the U-quadratic law
+    on the effective bounds `[a', b']`, provided `a' < b'`. -/
+theorem uquad_cdf (h : IsStdNormalCdf Φ Q) [IsProbabilityMeasure P] {m v : ℝ} (a b : Option ℝ)
+    (hX : NormalMarginal P X Φ m (Real.sqrt v)) (hv : 0 < v)
+    (hab : a.getD (uquadDefaultA m v) < b.getD (uquadDefaultB m v)) (y : ℝ) :
+    P.real {ω | toUquad Φ m v a b (X ω) ≤ y} =
+      uquadCdf (a.getD (uquadDefaultA m v)) (b.getD (uquadDefaultB m v)) y := by
+  have hs : 0 < Real.sqrt v := Real.sqrt_pos.mpr hv
+  simp only [toUquad_eq]
+  set a' := a.getD (uquadDefaultA m v)
+  set b' := b.getD (uquadDefaultB m v)
+  refine pushforward_cdf h hX hs (uniformToUquad a' b') _ y ?_
+  have hba : 0 < b' - a' := sub_pos.mpr hab
+  have h3 : 0 < (b' - a') ^ 3 := pow_pos hba 3
+  have hF : ∀ y, 4 * (y - (a' + b') / 2) ^ 3 / (b' - a') ^ 3 + 1 / 2 =
+      (4 * (y - (a' + b') / 2) ^ 3 + (b' - a') ^ 3 / 2) / (b' - a') ^ 3 := by
+    intro y; field_simp
+  unfold uquadCdf
+  split_ifs with h1 h2
+  · left
+    refine ⟨fun u hu0 _ => ?_, rfl⟩
+    rw [← not_le, uniformToUquad_le_iff hab]
+    have : (y - (a' + b') / 2) ^ 3 ≤ (-(b' - a') / 2) ^ 3 := cube_le_cube.mpr (by linarith)
+    rw [hF, le_div_iff₀ h3]
+    intro hh; nlinarith
+  · right; left
+    refine ⟨fun u _ hu1 => ?_, rfl⟩
+    rw [uniformToUquad_le_iff hab]
+    have : ((b' - a') / 2) ^ 3 ≤ (y - (a' + b') / 2) ^ 3 := cube_le_cube.mpr (by linarith)
+    rw [hF, le_div_iff₀ h3]
+    nlinarith
+  · right; right
+    have h1' : a' < y := lt_of_not_ge h1
+    have h2' : y < b' := lt_of_not_ge h2
+    exact ⟨(uquadCdf_mem_Ioo hab h1' h2').1, (uquadCdf_mem_Ioo hab h1' h2').2,
+      fun u _ _ => uniformToUquad_le_iff hab⟩
+
+/-- **Log-normal**: `exp` of a normal marginal `N(m, s²)` has the log-normal cdf `Φ((log y − m)/s)`. -/
+theorem lognormal_cdf {m s : ℝ} (hX : NormalMarginal P X Φ m s) (y : ℝ) :
+    P.real {ω | toLognormal (X ω) ≤ y} = lognormalCdf Φ m s y := by
+  unfold lognormalCdf
+  split_ifs with h0
+  · have : {ω | toLognormal (X ω) ≤ y} = ∅ := by
+      ext ω
+      simp only [Set.mem_ofPred_eq, Set.mem_empty_iff_false, iff_false, not_le, toLognormal, exp_real]
+      exact lt_of_le_of_lt h0 (Real.exp_pos _)
+    rw [this]; simp
+  · have hy : 0 < y := lt_of_not_ge h0
+    have : {ω | toLognormal (X ω) ≤ y} = {ω | X ω ≤ Real.log y} := by
+      ext ω
+      simp only [Set.mem_ofPred_eq, toLognormal, exp_real]
+      rw [Real.le_log_iff_exp_le hy]
+    rw [this, hX]
+
+
+/-! ## Zinn–Harvey -/
+
+/-- **Zinn–Harvey keeps the normal marginal**: for either connectivity, `array_zinnharvey(mean=m, var=v)` applied to a
+    normal marginal `N(m, v)` has again the marginal `N(m, v)`. -/
+theorem zinnharvey_marginal (h : IsStdNormalCdf Φ Q) [IsProbabilityMeasure P] {m v : ℝ} (high : Bool)
+    (hX : NormalMarginal P X Φ m (Real.sqrt v)) (hm : Measurable X) (hv : 0 < v) :
+    NormalMarginal P (fun ω => zinnharvey Φ Q high m v (X ω)) Φ m (Real.sqrt v) := by
+  have hs : 0 < Real.sqrt v := Real.sqrt_pos.mpr hv
+  have hZ := hX.standardize hs
+  have hmZ : Measurable fun ω => (X ω - m) / Real.sqrt v := (hm.sub_const m).div_const _
+  intro y
+  cases high
+  · have : {ω | zinnharvey Φ Q false m v (X ω) ≤ y} =
+        {ω | zhCore Φ Q ((X ω - m) / Real.sqrt v) ≤ (y - m) / Real.sqrt v} := by
+      ext ω
+      simp only [Set.mem_ofPred_eq, zinnharvey, standardize, sqrt_real, Bool.false_eq_true, ↓reduceIte]
+      rw [le_div_iff₀ hs]
+      constructor <;> intro hh <;> linarith
+    rw [this]
+    exact prob_zhCore_le h hZ hmZ _
+  · have : {ω | zinnharvey Φ Q true m v (X ω) ≤ y} =
+        {ω | -zhCore Φ Q ((X ω - m) / Real.sqrt v) ≤ (y - m) / Real.sqrt v} := by
+      ext ω
+      simp only [Set.mem_ofPred_eq, zinnharvey, standardize, sqrt_real, ↓reduceIte]
+      rw [le_div_iff₀ hs]
+      constructor <;> intro hh <;> linarith
+    rw [this]
+    exact prob_neg_zhCore_le h hZ hmZ _
+
+/-- **Zinn–Harvey reverses the order of the absolute deviations** (the deterministic core of "reversing connectivity";
+    the topological statement itself is not proved): with `conn = "high"` a strictly larger `|x − mean|` gives a strictly
+    smaller output, with `conn = "low"` a strictly larger one. -/
+theorem zinnharvey_order (h : IsStdNormalCdf Φ Q) {m v x₁ x₂ : ℝ} (hv : 0 < v) (hx : x₁ ≠ m)
+    (h12 : |x₁ - m| < |x₂ - m|) :
+    zinnharvey Φ Q true m v x₂ < zinnharvey Φ Q true m v x₁ ∧
+      zinnharvey Φ Q false m v x₁ < zinnharvey Φ Q false m v x₂ := by
+  have hs : 0 < Real.sqrt v := Real.sqrt_pos.mpr hv
+  have hz1 : (x₁ - m) / Real.sqrt v ≠ 0 := div_ne_zero (sub_ne_zero.mpr hx) (ne_of_gt hs)
+  have habs : |(x₁ - m) / Real.sqrt v| < |(x₂ - m) / Real.sqrt v| := by
+    rw [abs_div, abs_div]; exact div_lt_div_of_pos_right h12 (abs_pos.mpr (ne_of_gt hs))
+  have := zhCore_strictMono_abs h hz1 habs
+  simp only [zinnharvey, standardize, sqrt_real, ↓reduceIte, Bool.false_eq_true]
+  constructor <;> nlinarith
+
+/-! ## 'equal' thresholds -/
+
+theorem equalThresholds_length (m v : ℝ) (n : ℕ) : (equalThresholds Q m v n).length = n - 1 := by
+  simp [equalThresholds]
+
+theorem equalThresholds_getElem (m v : ℝ) (n i : ℕ) (hi : i < (equalThresholds Q m v n).length) :
+    (equalThresholds Q m v n)[i] = m + Real.sqrt v * Q (((i + 1 : ℕ) : ℝ) / (n : ℝ)) := by
+  simp [equalThresholds]
+
+theorem equalThresholds_ascending (h : IsStdNormalCdf Φ Q) {m v : ℝ} {n : ℕ} (hv : 0 < v) :
+    (equalThresholds Q m v n).Pairwise (· < ·) := by
+  have hs : 0 < Real.sqrt v := Real.sqrt_pos.mpr hv
+  rcases Nat.lt_or_ge n 2 with hn | hn
+  · have : n - 1 = 0 := by omega
+    simp [equalThresholds, this]
+  have hn0 : (0:ℝ) < n := by exact_mod_cast (by omega : 0 < n)
+  simp only [equalThresholds]
+  rw [List.pairwise_map]
+  refine List.Pairwise.imp_of_mem ?_ List.pairwise_lt_range
+  intro a b ha hb hab
+  simp only [List.mem_range] at ha hb
+  have hfrac : ∀ i, i < n - 1 → 0 < ((i + 1 : ℕ) : ℝ) / n ∧ ((i + 1 : ℕ) : ℝ) / n < 1 := by
+    intro i hi
+    refine ⟨by positivity, ?_⟩
+    rw [div_lt_one hn0]; exact_mod_cast (by omega : i + 1 < n)
+  have := h.Q_lt_Q (hfrac a ha).1 (by
+    rw [div_lt_div_iff_of_pos_right hn0]; exact_mod_cast (by omega : a + 1 < b + 1)) (hfrac b hb).2
+  simp only [sqrt_real]
+  nlinarith
+
+/-- 'equal' thresholds with the wrapper's `mean=`/`var=` keywords: `array_discrete` raises nothing and applies the
+    partition map of the thresholds `mean + √var·Φ⁻¹(i/n)` to the values in the given order -/
+theorem discrete_equal (h : IsStdNormalCdf Φ Q) (field vals : List ℝ) {m v : ℝ} (hn : 2 ≤ vals.length) (hv : 0 < v) :
+    ∃ f : ℝ → ℝ, discrete Q field vals (.equal (some m) (some v)) = .ok (field.map fun x => some (f x)) ∧
+      IsPartitionMap f vals (equalThresholds Q m v vals.length) :=
+  discrete_of_setup Q field vals _ vals _ rfl (by rw [equalThresholds_length]; omega)
+    (by rw [equalThresholds_length]; omega) (equalThresholds_ascending h hv)
+
+/-- **Equal classes** ('equal' thresholds `mean + √var·Φ⁻¹(i/n)`, `i = 1 … n−1`, `n ≥ 2` values, `var > 0`):
+    the thresholds are strictly ascending (so `array_discrete` does not raise), the cdf of the input marginal at the
+    `i`-th threshold is `i/n`, and therefore each of the `n` classes `(-∞, t₁]`, `(t_i, t_{i+1}]`, `(t_{n−1}, ∞)` of a
+    normal marginal `N(mean, var)` has probability exactly `1/n`. -/
+theorem equal_classes (h : IsStdNormalCdf Φ Q) [IsProbabilityMeasure P] {m v : ℝ} {n : ℕ} (hn : 2 ≤ n) (hv : 0 < v)
+    (hX : NormalMarginal P X Φ m (Real.sqrt v)) (hm : Measurable X) :
+    let t := equalThresholds Q m v n
+    t.Pairwise (· < ·) ∧
+    (∀ i (hi : i < t.length), Φ ((t[i] - m) / Real.sqrt v) = ((i + 1 : ℕ) : ℝ) / n) ∧
+    P.real {ω | X ω ≤ t[0]'(by simp [t, equalThresholds]; omega)} = 1 / n ∧
+    (∀ i (hi : i + 1 < t.length), P.real {ω | t[i] < X ω ∧ X ω ≤ t[i + 1]} = 1 / n) ∧
+    P.real {ω | t[t.length - 1]'(by simp [t, equalThresholds]; omega) < X ω} = 1 / n := by
+  intro t
+  have hs : 0 < Real.sqrt v := Real.sqrt_pos.mpr hv
+  have hn0 : (0:ℝ) < n := by exact_mod_cast (by omega : 0 < n)
+  have hlen : t.length = n - 1 := equalThresholds_length m v n
+  have hfrac : ∀ i, i < n - 1 → 0 < ((i + 1 : ℕ) : ℝ) / n ∧ ((i + 1 : ℕ) : ℝ) / n < 1 := by
+    intro i hi
+    refine ⟨by positivity, ?_⟩
+    rw [div_lt_one hn0]; exact_mod_cast (by omega : i + 1 < n)
+  have hcdf : ∀ i (hi : i < t.length), Φ ((t[i] - m) / Real.sqrt v) = ((i + 1 : ℕ) : ℝ) / n := by
+    intro i hi
+    rw [equalThresholds_getElem]
+    have : (m + Real.sqrt v * Q (((i + 1 : ℕ) : ℝ) / n) - m) / Real.sqrt v = Q (((i + 1 : ℕ) : ℝ) / n) := by
+      field_simp; ring
+    rw [this, h.right_inv _ (hfrac i (by omega)).1 (hfrac i (by omega)).2]
+  refine ⟨?_, hcdf, ?_, ?_, ?_⟩
+  · simp only [t, equalThresholds]
+    rw [List.pairwise_map]
+    refine List.Pairwise.imp_of_mem ?_ List.pairwise_lt_range
+    intro a b ha hb hab
+    simp only [List.mem_range] at ha hb
+    have := h.Q_lt_Q (hfrac a ha).1 (by
+      rw [div_lt_div_iff_of_pos_right hn0]; exact_mod_cast (by omega : a + 1 < b + 1)) (hfrac b hb).2
+    simp only [sqrt_real]
+    nlinarith
+  · rw [hX, hcdf 0 (by omega)]; simp
+  · intro i hi
+    have hle : t[i] ≤ t[i + 1] := by
+      rw [equalThresholds_getElem, equalThresholds_getElem]
+      have := h.Q_lt_Q (hfrac i (by omega)).1 (by
+        rw [div_lt_div_iff_of_pos_right hn0]; exact_mod_cast (by omega : i + 1 < i + 1 + 1)) (hfrac (i + 1) (by omega)).2
+      nlinarith
+    rw [prob_Ioc hX hm hle, hcdf (i + 1) hi, hcdf i (by omega)]
+    push_cast; field_simp; ring
+  · have hset : {ω | t[t.length - 1]'(by omega) < X ω} = {ω | X ω ≤ t[t.length - 1]'(by omega)}ᶜ := by
+      ext ω; simp
+    rw [hset, measureReal_compl (measurableSet_le_const hm _), probReal_univ, hX, hcdf _ (by omega)]
+    have : ((t.length - 1 + 1 : ℕ) : ℝ) = (n : ℝ) - 1 := by
+      rw [hlen]; push_cast [Nat.sub_add_cancel (by omega : 1 ≤ n - 1), Nat.cast_sub (by omega : 1 ≤ n)]; ring
+    rw [this]; field_simp; ring
+
+/-! ## the `Field.transform` wrappers: process / keep_mean pipeline -/
+
+/-- the stored field of a `Field` object: `trend + denormalize(mean + raw)` (`post_field(raw, process=True)`) -/
+noncomputable def storedField (c : Cfg ℝ) (raw : ℝ) : ℝ := postProcess c false raw
+
+/-- **What the array function sees.**  Whenever the normalizer round-trips on `mean + raw`, the pre-processed entry
+    handed to the array function is `usedMean + raw`, where `usedMean` is exactly the `mean=` keyword the wrapper passes
+    (`0` for `process and not keep_mean`, else `fld.mean`); the `var=` keyword is the sill.  So a raw field with marginal
+    `N(0, sill)` reaches the array function as `N(usedMean, sill)` together with matching `mean`/`var` arguments. -/
+theorem wrapper_input_process (c : Cfg ℝ) (keep : Bool) (raw : ℝ)
+    (hinv : c.norm.normalize (c.norm.denormalize (raw + c.mean)) = raw + c.mean) :
+    preProcess c keep (storedField c raw) = usedMean c true keep + raw := by
+  simp only [storedField, preProcess, postProcess, usedMean, Bool.false_eq_true, ↓reduceIte, add_sub_cancel_right, hinv,
+    Bool.true_and, Nat.cast_zero]
+  cases keep <;> simp [lit00]
+
+/-- without processing the wrappers insist on the default configuration (no normalizer, no trend), in which the
+    stored field is `mean + raw` and `usedMean = fld.mean` -/
+theorem wrapper_input_noprocess (c : Cfg ℝ) (keep : Bool) (raw : ℝ) (hchk : checkDefaultNormal c = .ok ()) :
+    storedField c raw = usedMean c false keep + raw := by
+  have hn : c.norm.isDefault = true := by
+    cases hd : c.norm.isDefault
+    · simp [checkDefaultNormal, hd, throw, throwThe, MonadExceptOf.throw] at hchk
+    · rfl
+  have ht : c.trend = none := by
+    cases hd : c.trend with
+    | none => rfl
+    | some t => simp [checkDefaultNormal, hn, hd, throw, throwThe, MonadExceptOf.throw] at hchk
+  have hnorm : c.norm = NormKind.none := by
+    cases hc : c.norm <;> simp [hc, NormKind.isDefault] at hn ⊢
+  simp [storedField, postProcess, usedMean, trendVal, ht, hnorm, NormKind.denormalize]
+  ring
+
+/-- pointwise wrappers with `process=True`: pre-process, apply the array map with `mean = usedMean`, post-process -/
+theorem applyFunction_process (c : Cfg ℝ) (keep : Bool) (g : ℝ → ℝ) (raws : List ℝ)
+    (hinv : ∀ r ∈ raws, c.norm.normalize (c.norm.denormalize (r + c.mean)) = r + c.mean) :
+    applyFunction c true keep (fun d => pure (d.map g)) (raws.map (storedField c)) =
+      .ok (raws.map fun r => postProcess c keep (g (usedMean c true keep + r))) := by
+  simp only [applyFunction, ↓reduceIte, List.map_map, bind, Except.bind, pure, Except.pure]
+  congr 1
+  apply List.map_congr_left
+  intro r hr
+  simp only [Function.comp, wrapper_input_process c keep r (hinv r hr)]
+
+/-- **The distribution wrappers** (`normal_to_uniform`, `normal_to_arcsin`, `normal_to_uquad`, `zinnharvey`) with
+    `process=True`: on a stored field `trend + denorm(mean + raw)` the result is
+    `trend + denorm(m₀ + T(usedMean + raw))` (`m₀ = 0` if `keep_mean` else `mean`), where `T` is the array transformation
+    called with `mean = usedMean`, `var = sill` — the configuration for which `uniform_cdf`, `arcsin_cdf`, `uquad_cdf`,
+    `zinnharvey_marginal` give the law of `T(usedMean + raw)` when `raw` has the marginal `N(0, sill)`. -/
+theorem wrapper_process (Φ Q : ℝ → ℝ) (c : Cfg ℝ) (keep : Bool) (raws : List ℝ)
+    (hinv : ∀ r ∈ raws, c.norm.normalize (c.norm.denormalize (r + c.mean)) = r + c.mean) :
+    let um := usedMean c true keep
+    let data := raws.map (storedField c)
+    (∀ low high, fieldTransform Φ Q c true keep data (.uniform low high) =
+      .ok (raws.map fun r => postProcess c keep (toUniform Φ um c.sill low high (um + r)))) ∧
+    (∀ a b, fieldTransform Φ Q c true keep data (.arcsin a b) =
+      .ok (raws.map fun r => postProcess c keep (toArcsin Φ um c.sill a b (um + r)))) ∧
+    (∀ a b, fieldTransform Φ Q c true keep data (.uquad a b) =
+      .ok (raws.map fun r => postProcess c keep (toUquad Φ um c.sill a b (um + r)))) ∧
+    (∀ high, fieldTransform Φ Q c true keep data (.zinnharvey high) =
+      .ok (raws.map fun r => postProcess c keep (zinnharvey Φ Q high um c.sill (um + r)))) := by
+  intro um data
+  refine ⟨fun low high => ?_, fun a b => ?_, fun a b => ?_, fun high => ?_⟩ <;>
+  · simp only [fieldTransform, Bool.not_true, Bool.false_eq_true, ↓reduceIte, pure, Except.pure]
+    exact applyFunction_process c keep _ raws hinv
+
+/-- the round-trip hypothesis is satisfiable: no normalizer, or the log-normal normalizer -/
+example (r m : ℝ) : (NormKind.none : NormKind ℝ).normalize ((NormKind.none : NormKind ℝ).denormalize (r + m)) = r + m := rfl
+example (r m : ℝ) : (NormKind.lognormal : NormKind ℝ).normalize ((NormKind.lognormal : NormKind ℝ).denormalize (r + m)) = r + m := by
+  simp [NormKind.normalize, NormKind.denormalize, Real.exp_pos]
+
+/-! ## stored-field names -/
+
+theorem lookup_set_self (st : FState ℝ) (n : String) (d : List ℝ) : (st.set n d).lookup n = some d := by
+  induction st with
+  | nil => simp [FState.set, FState.lookup]
+  | cons p t ih =>
+    obtain ⟨k, v⟩ := p
+    by_cases hk : (k == n) = true
+    · simp [FState.set, FState.lookup, hk]
+    · simp [FState.set, FState.lookup, hk, ih]
+
+theorem lookup_set_other (st : FState ℝ) (n n' : String) (d : List ℝ) (hne : n' ≠ n) :
+    (st.set n d).lookup n' = st.lookup n' := by
+  have hnn : (n == n') = false := by simpa using (Ne.symm hne)
+  induction st with
+  | nil => simp [FState.set, FState.lookup, hnn]
+  | cons p t ih =>
+    obtain ⟨k, v⟩ := p
+    by_cases hk : (k == n) = true
+    · have hkn : k = n := by simpa using hk
+      have : (k == n') = false := by rw [hkn]; exact hnn
+      simp [FState.set, FState.lookup, hk, hnn, this]
+    · by_cases hk' : (k == n') = true
+      · simp [FState.set, FState.lookup, hk, hk']
+      · simp [FState.set, FState.lookup, hk, hk', ih]
+
+theorem commit_spec (reserved : List String) (st : FState ℝ) (store : Store) (field : String) (out : List ℝ) :
+    let r := commit reserved st store field out
+    (∀ e, r.2 = .error e → r.1 = st) ∧
+    (∀ o, r.2 = .ok o → o = out ∧
+      match store with
+      | .no => r.1 = st
+      | .yes => r.1.lookup field = some out ∧ ∀ n', n' ≠ field → r.1.lookup n' = st.lookup n'
+      | .name n => r.1.lookup n = some out ∧ ∀ n', n' ≠ n → r.1.lookup n' = st.lookup n') := by
+  have key : ∀ (b : Bool) (n : String),
+      let r : FState ℝ × Except String (List ℝ) := if b = true then (st, .error "ValueError") else (st.set n out, .ok out)
+      (∀ e, r.2 = .error e → r.1 = st) ∧
+      (∀ o, r.2 = .ok o → o = out ∧ r.1.lookup n = some out ∧ ∀ n', n' ≠ n → r.1.lookup n' = st.lookup n') := by
+    intro b n
+    cases b
+    · simp only [Bool.false_eq_true, ↓reduceIte, reduceCtorEq, false_implies, implies_true, Except.ok.injEq, true_and]
+      intro o ho
+      exact ⟨ho.symm, lookup_set_self _ _ _, fun n' hn' => lookup_set_other _ _ _ _ hn'⟩
+    · simp
+  cases store with
+  | no => simp [commit, storeConfig]
+  | yes => exact key _ field
+  | name n => exact key _ n
+
+/-- **Stored-field names**: one `fld.transform(…, field=…, store=…)` call either fails and leaves every stored field
+    as it was, or returns `out` and: `store=False` leaves the state untouched; `store=True` overwrites the source field;
+    `store="name"` writes `out` under that name — in both cases every other stored field is unchanged. -/
+theorem step_store (Φ Q : ℝ → ℝ) (c : Cfg ℝ) (reserved : List String) (st : FState ℝ) (m : Method ℝ)
+    (field : String) (store : Store) (process keep : Bool) :
+    let r := step Φ Q c reserved st m field store process keep
+    (∀ e, r.2 = .error e → r.1 = st) ∧
+    (∀ out, r.2 = .ok out →
+      match store with
+      | .no => r.1 = st
+      | .yes => r.1.lookup field = some out ∧ ∀ n', n' ≠ field → r.1.lookup n' = st.lookup n'
+      | .name n => r.1.lookup n = some out ∧ ∀ n', n' ≠ n → r.1.lookup n' = st.lookup n') := by
+  intro r
+  have hr : r = step Φ Q c reserved st m field store process keep := rfl
+  unfold step at hr
+  cases h1 : preCheck c process m with
+  | error e => simp only [h1] at hr; rw [hr]; simp
+  | ok u =>
+    cases h2 : st.lookup field with
+    | none => simp only [h1, h2] at hr; rw [hr]; simp
+    | some data =>
+      cases h3 : fieldTransform Φ Q c process keep data m with
+      | error e => simp only [h1, h2, h3] at hr; rw [hr]; simp
+      | ok out =>
+        simp only [h1, h2, h3] at hr
+        have hc := commit_spec reserved st store field out
+        rw [hr]
+        refine ⟨hc.1, fun o ho => ?_⟩
+        obtain ⟨rfl, hrest⟩ := hc.2 o ho
+        exact hrest
 
 end GSV.Props.C19
